@@ -14,7 +14,6 @@ call cannot be written in Logica source are reported as not exercised.
 import collections
 import re
 
-from harness import common
 from harness import impl
 
 ENGINES = ('sqlite', 'duckdb', 'psql', 'bigquery', 'trino', 'presto',
